@@ -737,3 +737,152 @@ fn judge_peer_initiated(kill: Kill, with_error: bool, cond: &str, results: &[App
     }
     let _ = NetCfg::plain();
 }
+
+// ---------------------------------------------------------------------------------------
+// (c) the peer answers a teardown call with an error
+
+/// The application tears down link, session and connection in turn; the scripted peer answers
+/// one of the three (seeded) with an error. The call that was answered with the error must
+/// report it; the others return Ok.
+pub async fn run_answered_with_error() {
+    let level = choice(3); // 0 link, 1 session, 2 connection
+    let crossing = choice(2) == 1; // the peer's frame is written before it has seen ours
+    let ccfg = EndpointCfg::default_cfg();
+    let (nab, nba, nd) = world::draw_net(false);
+    sim::set_config(format!("variant=answered-with-error level={} crossing={} {}", ["link", "session", "connection"][level as usize], crossing, nd));
+    sim::mark_nontrivial();
+    sim::set_panic_is_violation(true);
+    let cvp = match peer::client_vs_peer(&ccfg, peer::open("peer", Some(65536), Some(255), None), nab, nba, Models::none()).await {
+        Some(x) => x,
+        None => return,
+    };
+    let peer::ClientVsPeer { mut client, mut peer, net, .. } = cvp;
+    let mut ps = PeerSession::new(0, 0, 5000, 5000);
+    let begin_fut = sim::in_group(1, Session::builder().begin(&mut client));
+    let peer_begin = async {
+        let b = peer.expect(wire::BEGIN).await?;
+        ps.on_remote_begin(b.perf.as_ref().unwrap(), b.channel);
+        peer.send(ps.channel, &peer::begin(Some(b.channel), ps.next_outgoing_id, ps.incoming_window, ps.outgoing_window)).await;
+        Some(())
+    };
+    let mut session = match sim::op("begin", world::join2(begin_fut, peer_begin)).await {
+        Some((Ok(s), Some(()))) => s,
+        _ => return,
+    };
+    let att = sim::in_group(1, Sender::builder().name("S").target("q").sender_settle_mode(SenderSettleMode::Unsettled).attach(&mut session));
+    let peer_att = async {
+        peer.expect(wire::ATTACH).await?;
+        peer.send(ps.channel, &peer::attach(&AttachArgs::receiver("S", 4))).await;
+        let mut f = ps.flow_args();
+        f.handle = Some(4);
+        f.delivery_count = Some(0);
+        f.link_credit = Some(100);
+        peer.send(ps.channel, &peer::flow(&f)).await;
+        Some(())
+    };
+    let mut sender = match sim::op("attach", world::join2(att, peer_att)).await {
+        Some((Ok(s), Some(()))) => s,
+        _ => return,
+    };
+    let chan = ps.channel;
+    let err = || Some(peer::error("amqp:internal-error", Some("answered-with-error")));
+    // the peer: settles transfers, answers detach / end / close, one of them with an error
+    let peer_done: Slot<()> = Slot::new();
+    {
+        let pd = peer_done.clone();
+        sim::spawn("peer-script", async move {
+            let deadline = tokio::time::Instant::now() + sim::OP_DEADLINE;
+            // with `crossing`, the peer's erroneous frame of the chosen level goes out as soon as the
+            // level below has been torn down, without waiting for the endpoint's frame
+            let mut sent_early = false;
+            loop {
+                if sim::has_violation() || tokio::time::Instant::now() >= deadline {
+                    break;
+                }
+                match peer.recv_within(100).await {
+                    Some(Item::Frame(f)) => match f.code {
+                        wire::TRANSFER => {
+                            if let Some(id) = f.perf.as_ref().and_then(|p| p.field(1).as_u32()) {
+                                peer.send(chan, &peer::disposition(true, id, None, true, Some(peer::accepted()))).await;
+                            }
+                        }
+                        wire::DETACH => {
+                            peer.send(f.channel, &peer::detach(4, true, if level == 0 { err() } else { None })).await;
+                            if crossing && level == 1 {
+                                peer.send(chan, &peer::end(err())).await;
+                                sent_early = true;
+                            }
+                        }
+                        wire::END => {
+                            if !(sent_early && level == 1) {
+                                peer.send(f.channel, &peer::end(if level == 1 { err() } else { None })).await;
+                            }
+                            if crossing && level == 2 {
+                                peer.send(0, &peer::close(err())).await;
+                                sent_early = true;
+                            }
+                        }
+                        wire::CLOSE => {
+                            if !(sent_early && level == 2) {
+                                peer.send(0, &peer::close(if level == 2 { err() } else { None })).await;
+                            }
+                            peer.shutdown().await;
+                            break;
+                        }
+                        _ => {}
+                    },
+                    Some(_) => {}
+                    None => {
+                        if peer.eof || peer.read_error.is_some() {
+                            break;
+                        }
+                    }
+                }
+            }
+            pd.put(());
+        });
+    }
+    for i in 0..2u64 {
+        match sim::op(&format!("send {}", i), sender.send(msgs::gen_message(950 + i, 100, 1))).await {
+            Some(Ok(_)) => {}
+            Some(Err(e)) => {
+                sim::violation("send-error", format!("send {} failed: {:?}", i, e));
+                return;
+            }
+            None => return,
+        }
+    }
+    let r_link = match sim::op("sender close", sender.close()).await {
+        Some(r) => format!("{:?}", r),
+        None => return,
+    };
+    let r_sess = match sim::op("session end", session.end()).await {
+        Some(r) => format!("{:?}", r),
+        None => return,
+    };
+    let r_conn = match sim::op("connection close", client.close()).await {
+        Some(r) => format!("{:?}", r),
+        None => return,
+    };
+    if sim::op("peer script", peer_done.take()).await.is_none() {
+        return;
+    }
+    let results = [("sender.close()", &r_link), ("session.end()", &r_sess), ("connection.close()", &r_conn)];
+    for (i, (what, r)) in results.iter().enumerate() {
+        if i as u32 == level {
+            if !r.contains("answered-with-error") {
+                sim::violation(
+                    "peer-error-not-carried",
+                    format!("the peer answered {} with amqp:internal-error 'answered-with-error'; the call returned {}", what, r),
+                );
+                return;
+            }
+            sim::probe("answer-error-reported");
+        } else if (i as u32) < level && !r.starts_with("Ok") {
+            // calls above the failing level may legitimately see the early (crossing) frame
+            sim::violation("teardown-result", format!("{} was answered without error and returned {}", what, r));
+            return;
+        }
+    }
+    let _ = net;
+}
